@@ -8,7 +8,8 @@ for d in seeded/${1}*/; do
   name=$(basename $d); id=$(echo $name | cut -c1-3)
   extra=$(cat $d/extra_checks 2>/dev/null)
   cd $ROOT; git diff --quiet || { echo "/repo dirty"; exit 2; }
-  git apply /verif/$d/patch.diff || { echo "$name: patch does not apply"; cd /verif; continue; }
+  patch=/verif/$d/patch.diff; [ -f /verif/$d/patch_ported.diff ] && patch=/verif/$d/patch_ported.diff
+  git apply $patch || { echo "$name: patch does not apply"; cd /verif; continue; }
   cd /verif; : > $d/result.txt
   for chk in $id $extra; do
     res=$(./check $chk --tier quick 2>&1); rc=$?
